@@ -244,7 +244,53 @@ func init() {
 		"vThorough": func(fr *frame, args []value) value { return fr.i.P.Tier == "thorough" },
 		"vSymbolic": func(fr *frame, args []value) value { return true },
 		"vYield": func(fr *frame, args []value) value {
-			fr.i.sched.yield()
+			i := fr.i
+			s := i.sched
+			if s.batonOn && s.cur.group != 0 {
+				me := s.cur.group
+				if nx := s.nextAliveGroup(me); nx != 0 && nx != me {
+					s.baton = nx
+					s.block(i, func() bool { return !s.batonOn || s.baton == me }, "vYield (baton)")
+				}
+				return nil
+			}
+			s.yield()
+			return nil
+		},
+		"vTasksBegin": func(fr *frame, args []value) value {
+			s := fr.i.sched
+			n := int(fr.i.asIntC(args[0]))
+			s.alive = make([]bool, n)
+			for k := range s.alive {
+				s.alive[k] = true
+			}
+			s.baton = 1
+			s.batonOn = true
+			return nil
+		},
+		"vTaskEnter": func(fr *frame, args []value) value {
+			i := fr.i
+			s := i.sched
+			g := int(i.asIntC(args[0])) + 1
+			s.cur.group = g
+			s.block(i, func() bool { return !s.batonOn || s.baton == g }, "vTaskEnter (baton)")
+			return nil
+		},
+		"vTaskExit": func(fr *frame, args []value) value {
+			s := fr.i.sched
+			g := int(fr.i.asIntC(args[0])) + 1
+			s.alive[g-1] = false
+			s.cur.group = 0
+			if s.baton == g {
+				s.baton = s.nextAliveGroup(g)
+				if s.baton == 0 {
+					s.batonOn = false
+				}
+			}
+			return nil
+		},
+		"vTasksEnd": func(fr *frame, args []value) value {
+			fr.i.sched.batonOn = false
 			return nil
 		},
 		"vFresh": func(fr *frame, args []value) value {
